@@ -157,11 +157,10 @@ theorem range_lawfulAs (a b c : Int) : LawfulAs (rangeI a b c) (rangeList a b c)
       have hi' : i < rangeLen a b c := by simpa [hlist] using hi
       have e : (rangeList a b c)[i] = f i := by simp only [hlist, List.getElem_map, List.getElem_range]
       rw [e]
-      have k := (rangeLen_neg_iff a b c hc i).mpr hi'
       have h1 : ¬ ((i : Int) < 0) := by omega
       simp only [f]
-      simp only [rangeGet, Int.ofNat_eq_natCast, h1, if_false, hc0, hnc, false_and, hc, true_and]
-      have : (i : Int) ≥ 0 ∧ b - 1 + c * (i : Int) ≥ a := ⟨by omega, k⟩
+      simp only [rangeGet, Int.ofNat_eq_natCast, h1, if_false, hnc, false_and, hc, true_and]
+      have : (i : Int) ≥ 0 ∧ (i : Int) < (rangeLen a b c : Int) := ⟨by omega, by omega⟩
       simp [this]
   · -- step 0: nothing
     subst hc
@@ -234,11 +233,10 @@ theorem range_lawfulAs (a b c : Int) : LawfulAs (rangeI a b c) (rangeList a b c)
       have hi' : i < rangeLen a b c := by simpa [hlist] using hi
       have e : (rangeList a b c)[i] = f i := by simp only [hlist, List.getElem_map, List.getElem_range]
       rw [e]
-      have k := (rangeLen_pos_iff a b c hc i).mpr hi'
       have h1 : ¬ ((i : Int) < 0) := by omega
       simp only [f]
-      simp only [rangeGet, Int.ofNat_eq_natCast, h1, if_false, hc0, hc, gt_iff_lt, true_and]
-      have : (i : Int) ≥ 0 ∧ a + c * (i : Int) < b := ⟨by omega, k⟩
+      simp only [rangeGet, Int.ofNat_eq_natCast, h1, if_false, hc, gt_iff_lt, true_and]
+      have : (i : Int) ≥ 0 ∧ (i : Int) < (rangeLen a b c : Int) := ⟨by omega, by omega⟩
       simp [this]
 
 end Cello.Iter
